@@ -70,7 +70,7 @@ fn check_sweep(i: u64, st: &mut Stats) -> Result<(), String> {
     Ok(())
 }
 
-fn desc_sweep(i: u64) -> Value {
+fn desc_sweep(_t: Tier, i: u64) -> Value {
     match sweep_decode(i) {
         None => json!({"skipped": true}),
         Some((bg, n, pos, val)) => json!({"background": bg, "message_len": n, "position": pos, "value": val}),
